@@ -148,6 +148,64 @@ def float_case(rng):
     return c
 
 
+DECIMAL_W = [0.9, 1.2, 1.3, 0.7, 1.1, 2.3, 0.1, 0.3, 1.7, 0.6, 1.9, 3.1, 0.0]
+DECIMAL_F = [1.5, -2.25, 0.1, 3.3, -0.7, 12.0, 4.4, -1.9, 0.05, 7.0]
+
+
+def spread_case(rng, kind=None):
+    """Weights whose magnitudes span many orders: one or two rows weigh 2**20 .. 2**40, the others 0.25 .. 7.
+    All dyadic with small numerators, so every sum and every marginal difference is exact in binary64 and the
+    case is compared exactly (also inside Coq).  Per-cell weight totals are exactly 0 or >= 0.25."""
+    c = gen_case(rng, kind=kind or rng.choice(["mean", "mean", "mean", "valid_count", "sum", "count"]),
+                 nd=rng.choice([1, 1, 2, 2, 3]), N=rng.choice([3, 4, 5, 6, 7, 8]))
+    N = c["N"]
+    c["wkind"] = rng.choice(["arr", "pair"])
+    w = [rng.choice([Fr(1, 4), Fr(1, 2), Fr(1), Fr(3, 2), Fr(2), Fr(5, 2), Fr(7), Fr(0)]) for _ in range(N)]
+    for r in rng.sample(range(N), rng.choice([1, 1, 2])):
+        w[r] = Fr(2 ** rng.choice([20, 27, 30, 33, 40]))
+    c["w"] = w
+    pmiss = rng.choice([0.0, 0.0, 0.15, 0.3])
+    c["wvalid"] = [rng.random() >= pmiss for _ in range(N)]
+    c["whidden"] = rng.choice(HIDDEN)
+    if c["fact"] is not None:        # small integer / half facts keep weight * fact exact next to 2**40
+        c["fact"] = [[Fr(rng.randrange(-6, 7), rng.choice([1, 1, 2])) if c["fdtype"] == "f8" else Fr(rng.randrange(-6, 7)) for _ in row] for row in c["fact"]]
+    c["spread"] = True
+    return c
+
+
+def decimal_case(rng, kind=None, nd=None, absent=False):
+    """Ordinary decimal survey weights (0.9, 1.2, 1.3 ...: partial sums not exactly representable) - tolerance
+    stream, judged by the exact oracle: missing cells exactly, values within 1e-9 of the grand total.  A weight is
+    exactly 0 or >= 0.1, so a cell's valid weight total is exactly 0 or >= 0.1 (never inside the code's isclose band)."""
+    c = gen_case(rng, kind=kind or rng.choice(["mean", "mean", "valid_count", "valid_count", "sum", "count"]),
+                 nd=nd if nd is not None else rng.choice([1, 1, 2, 2, 3]), N=rng.choice([4, 5, 6, 7, 8, 10, 12]))
+    N = c["N"]
+    if absent:                       # every dimension with >= 2 categories has one that never occurs
+        for d, e in enumerate(c["exts"]):
+            if e >= 2:
+                hole = rng.randrange(e)
+                keep = [v for v in range(e) if v != hole]
+                c["arrs"][d] = [v if v != hole else rng.choice(keep) for v in c["arrs"][d]]
+            c["commons"][d] = rng.randrange(e)
+    c["wkind"] = rng.choice(["arr", "arr", "pair", "scalar"])
+    if c["wkind"] == "scalar":
+        c["w"] = Fr(rng.choice(DECIMAL_W[:-1]))
+        c["wvalid"] = rng.random() >= 0.1
+    else:
+        c["w"] = [Fr(rng.choice(DECIMAL_W)) for _ in range(N)]
+        pmiss = rng.choice([0.0, 0.0, 0.15, 0.3])
+        c["wvalid"] = [rng.random() >= pmiss for _ in range(N)]
+    c["whidden"] = rng.choice(HIDDEN)
+    if c["fact"] is not None:
+        c["fdtype"] = "f8"
+        c["fact"] = [[Fr(rng.choice(DECIMAL_F)) for _ in row] for row in c["fact"]]
+        if c["fhidden"] not in HIDDEN:
+            c["fhidden"] = "nan"
+    c["float_stream"] = True
+    c["decimal"] = True
+    return c
+
+
 # --------------------------------------------------------------------------
 # building the real arguments
 # --------------------------------------------------------------------------
